@@ -431,4 +431,32 @@ def rule_g(ctx: Ctx) -> None:
                 '(target not a union) evaluates to True when the atom `self.base_type[.content].is_derived(…)` is True and every other atom False (truth table of the return expression).')
 
 
-RULES = [rule_a, rule_b, rule_c, rule_d, rule_e, rule_f, rule_g]
+def rule_h(ctx: Ctx) -> None:
+    """Substitution is transitive and only the head that is *being substituted* blocks it: with C → B → A, `block="substitution"` on B keeps C out of
+    B's place, not out of A's.  The membership table (maps.substitution_groups) is what the transitive closure walks, so whether an element is entered
+    under its head must not depend on the head's block - blocking is decided where a member is used (XsdGroup.check_dynamic_context)."""
+    rule = 'C07.h'
+    f = ctx.idx.method('xmlschema.validators.elements.XsdElement', '_parse_substitution_group')
+    ctx.analysed(f.qualname)
+    g = cfg_of(ctx, f)
+    regs = [n for n in g.nodes if n.kind == 'stmt' and 'self.maps.substitution_groups[' in text(n.ast) and
+            (isinstance(n.ast, ast.Assign) or any(isinstance(c.func, ast.Attribute) and c.func.attr == 'add' for c in calls(n.ast)))]
+    ctx.floor(rule, 'registrations in maps.substitution_groups', len(regs), 1)
+    bad = []
+    for n in regs:
+        for t, lab in guards(ctx, f, n):
+            if '.block' in t and 'substitution' in t:
+                bad.append((n, t, lab))
+    ok = not bad
+    ctx.ob(rule, '_parse_substitution_group: the entry of a member under its head does not depend on the block of the head', f.loc(bad[0][0].ast) if bad else f.loc(regs[0].ast), ok,
+           '' if ok else f'registration only when `{bad[0][1]}` is {bad[0][2] == "T"}: the members of a head that blocks substitution are not entered, so they are missing from the '
+           'transitive group of the head\'s own head - C substitutionGroup=B, B substitutionGroup=A block="substitution": <C/> is refused in the place of A',
+           key='_parse_substitution_group|registration-vs-block')
+    use = ctx.idx.method('xmlschema.validators.groups.XsdGroup', 'check_dynamic_context')
+    ok2 = any("'substitution' in model_element.block" in text(x.test) for x in ast.walk(use.node) if isinstance(x, ast.If))
+    ctx.ob(rule, 'XsdGroup.check_dynamic_context refuses a member where the particle of the model blocks substitution', use.loc(), ok2, '', key='check_dynamic_context|block-at-use', nontrivial=False)
+    ctx.explain('C07.h: the statements that enter an element in maps.substitution_groups are not control dependent on a test of the head\'s `block`; the block of the particle '
+                'actually substituted is tested at the point of use.')
+
+
+RULES = [rule_a, rule_b, rule_c, rule_d, rule_e, rule_f, rule_g, rule_h]
